@@ -187,6 +187,40 @@ def scEqual (a b : SpanCtx) : Bool :=
 /-- `TraceState.Walk` with a callback that returns false at its n-th call (n ≥ 1; 0 = never): the members visited -/
 def tsWalk (ts : TraceState) (stopAt : Nat) : List Member := if stopAt = 0 then ts else ts.take stopAt
 
+/-! ## trace/trace.go: String and MarshalJSON of the identifiers, the flags and the span context -/
+
+/-- `TraceID.String` / `SpanID.String` / `TraceFlags.String`: `hex.EncodeToString` -/
+def idString (b : Bytes) : Bytes := hexEncode b
+
+def asc (s : String) : Bytes := s.toList.map (fun c => UInt8.ofNat c.toNat)
+
+/-- encoding/json's string escaping (HTML-safe mode, the default of `json.Marshal`) of one byte of a printable-ASCII
+string: `"` and `\` get a backslash, `<` `>` `&` become \u003c \u003e \u0026; control bytes become \u00XX
+(\n \r \t \b \f have short forms: they cannot occur in the strings marshalled here and are not modelled);
+bytes ≥ 0x80 are outside the domain (every marshalled string is lower-case hex or a valid tracestate) -/
+def jsonEscByte (c : UInt8) : Bytes :=
+  if c = 0x22 then [0x5c, 0x22]
+  else if c = 0x5c then [0x5c, 0x5c]
+  else if c = 0x3c ∨ c = 0x3e ∨ c = 0x26 ∨ c.toNat < 0x20 then
+    [0x5c, 0x75, 0x30, 0x30, hexChar (c.toNat / 16), hexChar (c.toNat % 16)]
+  else [c]
+
+/-- `json.Marshal(s)` for such a string -/
+def jsonString (s : Bytes) : Bytes := 0x22 :: (s.flatMap jsonEscByte ++ [0x22])
+
+/-- `TraceID.MarshalJSON` / `SpanID.MarshalJSON` -/
+def idJSON (b : Bytes) : Bytes := jsonString (idString b)
+/-- `TraceFlags.MarshalJSON` -/
+def flagsJSON (f : UInt8) : Bytes := jsonString (hexEncode [f])
+/-- `TraceState.MarshalJSON` -/
+def tsJSON (ts : TraceState) : Bytes := jsonString (tsString ts)
+
+/-- `SpanContext.MarshalJSON`: `json.Marshal(SpanContextConfig{…})`, fields in declaration order -/
+def scJSON (sc : SpanCtx) : Bytes :=
+  asc "{\"TraceID\":" ++ idJSON sc.tid ++ asc ",\"SpanID\":" ++ idJSON sc.sid ++
+  asc ",\"TraceFlags\":" ++ flagsJSON sc.flags ++ asc ",\"TraceState\":" ++ tsJSON sc.ts ++
+  asc ",\"Remote\":" ++ (if sc.remote then asc "true" else asc "false") ++ asc "}"
+
 /-! ## edit scripts on a TraceState value -/
 
 inductive TsOp where
